@@ -1,5 +1,6 @@
 """C03 - lock-free SPSC channels: release/acquire publication discipline, slot-count agreement and
 completion-queue sizing, decided on the MIR of the three queue implementations and the connection layer."""
+import re
 from . import core, lib
 from .core import sym, sym_nstr, sym_place, poly, poly_ge, poly_str, NotPoly
 from .lib import ord_floor, dom, pdom, no_path, atomics, raw, sites_of, fnkey
@@ -248,7 +249,65 @@ def connection(F, R):
         R.floor('create_or_open_shm queue-size argument sites', checked, 2)
 
 
+def queue_roles(F, R):
+    """Which queue each connection operation uses: both queues carry u64 offsets, so a swap compiles."""
+    Z = r'^<iceoryx2_cal::zero_copy_connection::common::details::%s<.*> as iceoryx2_cal::zero_copy_connection::ZeroCopy%s>::%s$'
+    table = [('Sender', 'Sender', 'try_send', 'submission_queue', 'push'), ('Sender', 'Sender', 'blocking_send', 'submission_queue', 'push'),
+             ('Sender', 'Sender', 'reclaim', 'completion_queue', 'pop'), ('Receiver', 'Receiver', 'receive', 'submission_queue', 'pop'),
+             ('Receiver', 'Receiver', 'release', 'completion_queue', 'push')]
+    n = 0
+    for ty, tr, m, q, op in table:
+        fs = F.find_fns(Z % (ty, tr, m))
+        key = 'FLOW::zero_copy_connection::%s::%s-uses-%s.%s' % (ty, m, q, op)
+        if len(fs) != 1:
+            R.ob('FLOW', key, False, 'anchor-missing: %s::%s (%d bodies)' % (ty, m, len(fs)), '')
+            continue
+        f = fs[0]
+        bodies = [f] + F.closures_of(f)
+        sites = []
+        for b in bodies:
+            for c in b.calls(r'(index_queue|safely_overflowing_index_queue)::details::\w+::<.*>::(push|pop)$'):
+                sites.append((b, c))
+        if m == 'blocking_send' and not sites:
+            # blocking_send retries through try_send
+            ts = sum((b.calls(r'::try_send$') for b in bodies), [])
+            R.ob('FLOW', key, bool(ts), 'blocking_send delivers through try_send (%d calls)' % len(ts), ts[0].where if ts else f.file, f)
+            n += 1
+            continue
+        good = [(b, c) for (b, c) in sites if b.chain(c.args[0]).endswith('.' + q) and c.callee.endswith('::' + op)]
+        other = [(b, c) for (b, c) in sites if (b, c) not in good]
+        n += 1
+        R.ob('FLOW', key, len(good) >= 1 and not other, '%s::%s touches %s' % (ty, m, sorted(set('%s.%s' % (b.chain(c.args[0]).rsplit('.', 1)[-1], c.callee.rsplit('::', 1)[-1]) for (b, c) in sites))), good[0][1].where if good else f.file, f)
+    R.floor('connection queue-role instances', n, 5)
+    # used chunk list: insert = !set(v, true), remove = set(v, false)
+    U = 'iceoryx2_cal::zero_copy_connection::used_chunk_list::details::UsedChunkList::<PointerType>::'
+    for m, val in (('insert', 1), ('remove', 0)):
+        f = F.fn(U + m)
+        cs = f.calls(r'UsedChunkList::<.*>::set$')
+        ok = len(cs) == 1 and f.const_of(cs[0].args[2]) == val
+        R.ob('CONST-ARG', 'CONST-ARG::%s::set-value' % fnkey(f), ok, '%s calls set(value, %s)' % (m, 'true' if val else 'false'), cs[0].where if cs else f.file, f)
+    st = F.fn(U + 'set')
+    sw = atomics(st, None, 'swap')
+    R.ob('FLOW', 'FLOW::%s::swap-returns-previous' % fnkey(st), len(sw) == 1 and sw[0].site.dest == [0], 'set() is one atomic swap whose previous value is the result (double insert / double remove is detected)', sw[0].site.where if sw else st.file, st)
+
+
+def full_empty_tests(F, R):
+    """The fullness / emptiness tests use the same capacity as the slot arithmetic."""
+    for prefix, nm in ((IQ, 'index_queue'), (SOQ, 'overflowing')):
+        push, pop = F.fn(prefix + 'push'), F.fn(prefix + 'pop')
+        eqs = [s for s in push.sites if s.i != 'T' and s.node[0] == 'a' and s.node[2][0] == 'bin' and s.node[2][1] == 'Eq']
+        full = [sym_nstr(core.sym_norm((core._BIN['Eq'], sym(push, s.node[2][2]), sym(push, s.node[2][3])))) for s in eqs]
+        ok = any(re.search(r'write_position', x) and re.search(r'read_position', x) and 'self.capacity' in x and '+ 1' not in x.replace('write_position + 1', '') for x in full)
+        R.ob('SYM-EQ', 'SYM-EQ::%s::is_full=write==read+capacity' % fnkey(push), ok, 'fullness test(s): %s ; required write_position == read_position + capacity (exactly `capacity` elements fit)' % [x[:150] for x in full], eqs[0].where if eqs else push.file, push)
+        eqs = [s for s in pop.sites if s.i != 'T' and s.node[0] == 'a' and s.node[2][0] == 'bin' and s.node[2][1] == 'Eq']
+        emp = [sym_nstr(core.sym_norm((core._BIN['Eq'], sym(pop, s.node[2][2]), sym(pop, s.node[2][3])))) for s in eqs]
+        ok = any('write_position' in x and 'read_position' in x and '+' not in x and '-' not in x for x in emp)
+        R.ob('SYM-EQ', 'SYM-EQ::%s::is_empty=read==write' % fnkey(pop), ok, 'emptiness test(s): %s ; required read_position == write_position' % [x[:150] for x in emp], eqs[0].where if eqs else pop.file, pop)
+
+
 def check(F, R, tier):
+    queue_roles(F, R)
+    full_empty_tests(F, R)
     spsc_plain(F, R, IQ, r'IndexQueue::at')
     spsc_plain(F, R, Q, r'UnsafeCell::get|self\.data')
     overflowing(F, R)
